@@ -107,9 +107,15 @@ def check(run, project):
 def is_attach_use(name_node, stmt, fn):
     """the iterator may be drained only to report the unconsumed rest: the value must flow into
     set_bytes_remaining(...) / bytes_remaining= of an error that is raised or wrapped in a warning."""
-    txt = norm(stmt)
-    if "set_bytes_remaining" in txt and isinstance(stmt, ast.Expr):
-        return True
+    # the Name sits (possibly through helper calls / bytes() / chain()) inside the argument of
+    # set_bytes_remaining(...) or of a bytes_remaining= keyword
+    p = getattr(name_node, "_parent", None)
+    while p is not None and not isinstance(p, ast.stmt):
+        if isinstance(p, ast.keyword) and p.arg == "bytes_remaining":
+            return True
+        if isinstance(p, ast.Call) and isinstance(p.func, ast.Attribute) and p.func.attr == "set_bytes_remaining":
+            return True
+        p = getattr(p, "_parent", None)
     if isinstance(stmt, ast.Assign) and isinstance(stmt.targets[0], ast.Name):
         var = stmt.targets[0].id
         # used only as the argument of set_bytes_remaining / bytes_remaining=
